@@ -6154,6 +6154,14 @@ class Device(utils.CompositeEventEmitter):
 
             # Cleanup subsystems that maintain per-connection state
             self.gatt_server.on_disconnection(connection)
+
+            # A CIS that was being established on this connection never will be
+            for cis_link in list(self.cis_links.values()):
+                if (
+                    cis_link.acl_connection is connection
+                    and cis_link.state != CisLink.State.ESTABLISHED
+                ):
+                    self.on_cis_establishment_failure(cis_link.handle, reason)
         elif sco_link := self.sco_links.pop(connection_handle, None):
             sco_link.emit(sco_link.EVENT_DISCONNECTION, reason)
         elif cis_link := self.cis_links.pop(connection_handle, None):
